@@ -273,9 +273,10 @@ def summarize_sanitizer(stderr):
 # ----------------------------------------------------------------------------- verdicts
 
 def load_known():
-    p = os.path.join(VERIF, "known_findings.jsonl")
     out = []
-    if os.path.exists(p):
+    for p in [os.path.join(VERIF, "known_findings.jsonl")] + sorted(glob.glob(os.path.join(VERIF, "known_findings.d", "*.jsonl"))):
+        if not os.path.exists(p):
+            continue
         for l in open(p):
             l = l.strip()
             if l and not l.startswith("#"):
